@@ -343,22 +343,45 @@ def transcriptSpan (l : Loc) : P Blk :=
 
 def sortPartsByStart (bs : List Blk) : List Blk := bs.mergeSort fun a b => decide (a.1 ≤ b.1)
 
+/-- which variant of `find_cds_interval` is modelled -/
+structure ParserRule where
+  /-- clip every CDS block to the transcript bounds and keep the blocks as written (proposed patch for F-C12c)
+      instead of `cds_interval.intersection(span)`, which ends in `optimize_blocks()` -/
+  clipsBlockwise : Bool
+  deriving DecidableEq, Repr
+
+/-- the code in /repo today: flip when the patch is applied -/
+def currentParserClipsBlockwise : Bool := false
+def currentParserRule : ParserRule := ⟨currentParserClipsBlockwise⟩
+def ParserRule.repaired : ParserRule := ⟨true⟩
+
+/-- block-wise clip: `(max(s, lo), min(e, hi))`, empty results dropped -/
+def clipBlocks (span : Blk) (parts : List Blk) : List Blk :=
+  (parts.map fun b => (max b.1 span.1, min b.2 span.2)).filter fun b => decide (b.1 < b.2)
+
 /-- `find_cds_interval`: `none` = EmptyLocation -/
-def cdsInterval (c : Child) : P (Option Loc) :=
+def cdsInterval (rule : ParserRule) (c : Child) : P (Option Loc) :=
   match c.cds with
   | none => pure none
   | some cr => do
     let ex ← exonInterval c.tx
     let span ← transcriptSpan ex
     let parts := sortPartsByStart cr.parts
-    let cdsLoc ← (match parts with
-      | [b] => liftR (mkSingle b.1 b.2 c.tx.strand)
-      | _ => liftR (mkCompound parts c.tx.strand))
-    let r ← liftR (intersection cdsLoc (.single span c.tx.strand) true false)
-    match r with
-    | .empty => pure none
-    | .single b st => pure (some ⟨[b], st⟩)
-    | .compound l => pure (some l)
+    if rule.clipsBlockwise then
+      let clipped := clipBlocks span parts
+      if clipped.isEmpty then pure none
+      else do
+        let l ← liftR (mkCompoundLoc clipped c.tx.strand)
+        pure (some l)
+    else do
+      let cdsLoc ← (match parts with
+        | [b] => liftR (mkSingle b.1 b.2 c.tx.strand)
+        | _ => liftR (mkCompound parts c.tx.strand))
+      let r ← liftR (intersection cdsLoc (.single span c.tx.strand) true false)
+      match r with
+      | .empty => pure none
+      | .single b st => pure (some ⟨[b], st⟩)
+      | .compound l => pure (some l)
 
 def kCodonStart : Str := "codon_start".toList
 
@@ -415,9 +438,9 @@ def sPseudogene : Str := "pseudogene".toList
 def sProteinCoding : Str := "protein_coding".toList
 
 /-- one iteration of `for tx in cls.children` -/
-def txModel (c : Child) : P PTx := do
+def txModel (rule : ParserRule) (c : Child) : P PTx := do
   let ex ← exonInterval c.tx
-  let cds ← cdsInterval c
+  let cds ← cdsInterval rule c
   let (cdsBlocks, frames) ← (match cds, c.cds with
     | some l, some cr => do let fs ← constructFrames cr l; pure (l.blocks, fs)
     | _, _ => pure (([] : List Blk), ([] : List CDSFrame)))
@@ -452,8 +475,8 @@ def firstOf (k : Str) (q : QDict) : P (Option Str) :=
   | some [] => throw .indexError
   | some (v :: _) => pure (some v)
 
-def toGeneModel (gf : GeneF) : P PGene := do
-  let all ← gf.children.mapM txModel
+def toGeneModel (rule : ParserRule) (gf : GeneF) : P PGene := do
+  let all ← gf.children.mapM (txModel rule)
   let txs := dedup all []
   let ty ← (match geneBiotype (all.map (·.txType)) with
     | some t => pure t
@@ -468,10 +491,13 @@ def toGeneModel (gf : GeneF) : P PGene := do
 def sortGenesByStart (gs : List GeneF) : List GeneF := gs.mergeSort fun a b => decide (recStart a.gene ≤ recStart b.gene)
 
 /-- `parser.parse()` restricted to the gene models of one record -/
-def parseModel (m : Mode) (rs : List Rec) : P (List PGene) := do
+def parseModelWith (rule : ParserRule) (m : Mode) (rs : List Rec) : P (List PGene) := do
   let ex ← extract m rs
   let genes ← ex.groups.mapM convertGroup
   if genes.isEmpty && ex.remaining == 0 then throw (.doc .Export)      -- EmptyGenBankError
-  else (sortGenesByStart genes).mapM toGeneModel
+  else (sortGenesByStart genes).mapM (toGeneModel rule)
+
+/-- the parser as it is in /repo today -/
+def parseModel (m : Mode) (rs : List Rec) : P (List PGene) := parseModelWith currentParserRule m rs
 
 end BioCantor.Model.Gb
